@@ -266,7 +266,7 @@ def c06_jobs(tier):
     corp = _C06["corpus"] if tier == "thorough" else _C06["corpus"][::3]
     hs += names("c06", ["c06_corpus_" + c for c in corp], bound="evaluation on a file written by the pinned build", what="decodes to the recorded value in both modes", covers="none")
     hs += [twin("c06::c06_twin_reach")]
-    return [dict(harnesses=hs, timeout=900 if tier == "quick" else 2400)]
+    return [dict(harnesses=hs, timeout=900 if tier == "quick" else 2400, jobs=8)]
 
 
 PLAN["C06"] = dict(quick=lambda seed: c06_jobs("quick"), thorough=lambda seed: c06_jobs("thorough"),
@@ -319,7 +319,8 @@ PLAN["C05"] = dict(quick=lambda seed: c05_jobs("quick"), thorough=c05_thorough,
                    stubs=RT_STUBS, assumptions=["the exact DeserType is asserted at type level in cases.rs (`let e: &DeepS<&[u16]> = e;`): a wrong substitution is a build failure of the harness crate, reported as inconclusive build error with the compiler message"])
 
 # ---- C08 / C09 ----------------------------------------------------------------------------
-FS_STUBS = ["std::path::Path::metadata -> Ok(zeroed Metadata)", "std::fs::Metadata::len -> length of the in-memory file", "std::fs::File::open/create -> File::from_raw_fd(3|4)",
+FS_STUBS = ["anyhow blanket From<E> -> harness stub (consumes the error, returns an anyhow::Error; the dyn-Error introspection of the real conversion is not tractable)", "std::io::BufReader::new / BufWriter::new -> with_capacity(64)", "<Global as Allocator>::deallocate / std::alloc::dealloc -> counting stub freeing through CBMC's free", "std::io::Error::is_interrupted -> false",
+            "std::path::Path::metadata -> Ok(zeroed Metadata)", "std::fs::Metadata::len -> length of the in-memory file", "std::fs::File::open/create -> File::from_raw_fd(3|4)",
             "<File as Read>::read -> copies from the in-memory file image, whole request", "<File as Write>::write/flush -> appends to an in-memory output buffer",
             "<OwnedFd as Drop>::drop -> no-op", "std::backtrace::Backtrace::capture -> Backtrace::disabled()",
             "std::alloc::alloc -> alloc_zeroed + fill 0xAA + record (ptr, size, align)", "core::str::from_utf8 -> env::from_utf8_stub"]
@@ -334,14 +335,15 @@ PLAN["C08"] = dict(
              "the default-features build: since the error paths of the loaders drop the backend in place, the drop glue of the Mmap variant (all of mmap-rs) is reachable from load_mem and CBMC exceeds 12 GB; load_mem/load_full/store contain no cfg-dependent code, the mmap feature only adds the enum variant and the two mmap loaders",
              "page-size effects, real file systems, short reads of a real file (C14 covers read_exact)", "files larger than 64 bytes: in particular every sequence type (their type names alone exceed the budget), so borrowed slices inside the region are covered only through zero-copy references (&ZeroS, &(u16,u16), &[u32;1])"],
     stubs=FS_STUBS, assumptions=["every stub of fsenv.rs"])
-C09_ALL = ["c09_release_u32", "c09_release_tup2", "c09_release_arr", "c09_fail_wrong_type", "c09_fail_wrong_type_zero", "c09_fail_truncated", "c09_fail_bad_magic", "c09_fail_bad_tag", "c09_fail_read_io",
+C09_ALL = ["c09_release_u32", "c09_release_tup2", "c09_release_arr", "c09_fail_wrong_type", "c09_fail_wrong_type_zero", "c09_fail_truncated", "c09_fail_bad_magic", "c09_fail_bad_tag",
            "c09_escape_deref", "c09_escape_asref", "c09_scoped_use", "c09_eps_scope"]
 PLAN["C09"] = dict(
     quick=lambda seed: [dict(cfg="nommap", harnesses=[H("c09::" + n, bound="load_mem under fs stubs, no-mmap build; file contents symbolic", what="release exactly once / no leak on failure / no use after release through safe code", covers="none", role="load_mem/" + n[4:]) for n in C09_ALL]
                              + [twin("c09::c09_twin_reach")], timeout=900)],
-    thorough=lambda seed: [dict(cfg="nommap", harnesses=[H("c09::" + n, bound="load_mem under fs stubs, no-mmap build", what="lifetime of the backing memory", covers="none", role="load_mem/" + n[4:]) for n in C09_ALL + ["c09_fail_read_error"]] + [twin("c09::c09_twin_reach")], timeout=2400)],
-    bounds={"loader": "load_mem only", "failure_causes": "wrong type (2 pairs), truncated file, corrupt magic, corrupt tag"},
-    outside=["the borrow-checker half (programs that must be REJECTED by rustc): a type-check verdict is not a solver query; only the accept-side programs are compiled here",
+    thorough=lambda seed: [dict(cfg="nommap", harnesses=[H("c09::" + n, bound="load_mem under fs stubs, no-mmap build", what="lifetime of the backing memory", covers="none", role="load_mem/" + n[4:]) for n in C09_ALL] + [twin("c09::c09_twin_reach")], timeout=2400)],
+    bounds={"loader": "load_mem only", "failure_causes": "wrong type (2 pairs), truncated file, corrupt magic, corrupt variant tag"},
+    outside=["I/O errors while reading the file inside load_mem (harnesses c09_fail_read_io / c09_fail_read_error exist but are not tractable: after the failed read_exact CBMC walks infeasible continuations through anyhow/Backtrace drop glue, > 15 min, no verdict) - a double free or leak that only occurs on that path is NOT detected by this check",
+             "the borrow-checker half (programs that must be REJECTED by rustc): a type-check verdict is not a solver query; only the accept-side programs are compiled here",
              "load_mmap / mmap regions (mmap-rs objects, FFI); /proc/self/maps and real allocator accounting"],
     stubs=FS_STUBS, assumptions=["kani::mem::can_dereference on the block recorded by the alloc stub decides allocated / released"])
 
@@ -377,7 +379,7 @@ def c11_jobs(tier):
 
 PLAN["C11"] = dict(quick=lambda seed: c11_jobs("quick"), thorough=lambda seed: c11_jobs("thorough"),
                    bounds=dict(RT_BOUNDS, cut="every k in [0, len) as a solver variable; exact-object variants at listed K"),
-                   outside=COMMON_OUTSIDE + ["load_full / mmap of a truncated file (load_full reduces to deserialize_full over BufReader<File>: covered at the ReadNoStd boundary; mmap is FFI)", "corruption (as opposed to truncation) of length words"],
+                   outside=COMMON_OUTSIDE + ["truncation inside Vec<String>, Box<[String]>, [String;2], Vec<DeepS<_>> and header truncation for reader types with type names longer than 4 characters: CBMC walks the infeasible Ok-continuation after a failed read (DESIGN.md fact 15) and exceeds 12 GB", "load_full / mmap of a truncated file (load_full reduces to deserialize_full over BufReader<File>: covered at the ReadNoStd boundary; mmap is FFI)", "corruption (as opposed to truncation) of length words"],
                    stubs=RT_STUBS, assumptions=["for ε-copy the property allows an error or a bounds-check panic: failed checks whose function/description is a slice-index or bounds-check panic are tolerated, every other failed check (pointer, arithmetic, other panics, the Ok assertion) is a violation"])
 
 C14_FAIL = _fns("c14.rs", r"\b(c14_fail_\w+):")
@@ -390,7 +392,7 @@ PLAN["C14"] = dict(
     thorough=lambda seed: [dict(harnesses=names("c14", C14_FAIL, bound="failure position symbolic", what="(A)") + names("c14", C14_CALL, bound="reader fails at its J-th call, every J", what="(A') deep types", covers="none") + names("c14", ["c14_std_read_exact_4", "c14_std_read_exact_8", "c14_chunky_u32", "c14_chunky_optu8"], bound="<= 6 read calls", what="(B)/(C)")
                                 + [twin("c14::c14_twin_reach")], timeout=2400)],
     bounds=dict(RT_BOUNDS, fail_at="every k in 0..=len", fragmentation="requests <= 8 bytes, <= 6 read calls per harness"),
-    outside=COMMON_OUTSIDE + ["fragmentation of long streams in one query (decomposed at the ReadNoStd trait boundary: (A)+(B) compose because the deserializers call the reader only through read_exact - an argument, not a solver result)", "[T;N] deep arrays leak already-built items on mid-array failure (leak, not corruption)"],
+    outside=COMMON_OUTSIDE + ["reader failure inside Vec<String>, Box<[String]>, [String;2], Vec<DeepS<_>> (DESIGN.md fact 15); [Vec<u16>;2] and Vec<Vec<u16>> stand in for deep items with drop glue", "fragmentation of long streams in one query (decomposed at the ReadNoStd trait boundary: (A)+(B) compose because the deserializers call the reader only through read_exact - an argument, not a solver result)", "[T;N] deep arrays leak already-built items on mid-array failure (leak, not corruption)"],
     stubs=RT_STUBS + ["Exact::failing: ReadNoStd failing at a symbolic position", "Chunky: io::Read with symbolic chunk sizes / Interrupted / early EOF"], assumptions=[])
 
 # ---- C17 / C18 -------------------------------------------------------------------------------
@@ -423,9 +425,9 @@ PLAN["C17"] = dict(
 
 C18_ALL = _fns("c18.rs", r"^\s+(c18_\w+) @")
 PLAN["C18"] = dict(
-    quick=lambda seed: [dict(harnesses=names("c18", C18_ALL[:9] + ["c18_vecu128_p0", "c18_zal32_p8", "c18_toplevel_u32"], bound="concrete shape, field values symbolic, start residue per instance", what="bytes equal plain serialization; rows pre-order/in-stream/tiling/zero padding/aligned; debug() and to_csv() run", covers="none")
-                             + [twin("c18::c18_twin_reach")], timeout=900)],
-    thorough=lambda seed: [dict(harnesses=names("c18", C18_ALL + ["c18_toplevel_u32"], bound="concrete shape, field values symbolic", what="schema rows vs bytes", covers="none") + [twin("c18::c18_twin_reach")], timeout=2400)],
+    quick=lambda seed: [dict(harnesses=names("c18", ["c18_zeros_p1", "c18_u32_p1", "c18_deeps_some", "c18_deeps_empty", "c18_vecu128_p0", "c18_zal32_p8", "c18_hold_zst", "c18_toplevel_u32"], bound="concrete shape, field values symbolic, start residue per instance", what="bytes equal plain serialization; rows pre-order/in-stream/tiling/zero padding/aligned; debug() and to_csv() run", covers="none")
+                             + [twin("c18::c18_twin_reach")], timeout=900, jobs=5)],
+    thorough=lambda seed: [dict(harnesses=names("c18", C18_ALL + ["c18_toplevel_u32"], bound="concrete shape, field values symbolic", what="schema rows vs bytes", covers="none") + [twin("c18::c18_twin_reach")], timeout=2400, jobs=5)],
     bounds={"shapes": "20 concrete shapes incl. 16- and 32-aligned blocks at gaps of 8/16/24/1 bytes, zero-sized fields, empty sequences, nested composites, header rows (top level u32)"},
     outside=["value-dependent shapes explored symbolically (CBMC runs out of memory)", "the rendered text (alloc::fmt::format is stubbed)", "shapes not listed"],
     stubs=["alloc::fmt::format -> String::new()", "Sink"], assumptions=[])
